@@ -407,6 +407,11 @@ class Server:
         t0 = time.time()
         if not self.fine_grained_manager:
             return {"error": "Command 'recheck' is only valid after a 'check' command"}
+        if (remove is not None or update is not None) and self.following_imports():
+            return {
+                "error": "Command 'recheck' with --update/--remove is only valid"
+                " when imports are not followed (--follow-imports=skip or error)"
+            }
         sources = self.previous_sources
         if remove:
             removals = set(remove)
